@@ -271,7 +271,7 @@ func VH_FRAG_r2() {
 	vAssert(err == nil, "valid stream opens under any fragmentation")
 	nsym := 3
 	if vThorough() {
-		nsym = 6
+		nsym = 5
 	}
 	out, err := vReadSched(r, nsym)
 	vAssert(err == io.EOF, "clean end of stream")
@@ -292,7 +292,7 @@ func VH_FRAG_lzma() {
 	vAssert(err == nil, "valid stream opens under any fragmentation")
 	nsym := 3
 	if vThorough() {
-		nsym = 6
+		nsym = 5
 	}
 	out, err := vReadSched(r, nsym)
 	vAssert(err == io.EOF, "clean end of stream")
